@@ -167,6 +167,11 @@ def rule_bijection(ctx):
     ctx.floor("bijection rows", n, 100)
 
 
+def blk_is_drop(t):
+    c = t.get("callee") or ""
+    return "drop_in_place" in c or c.endswith("::drop")
+
+
 def rule_fields(ctx):
     """from_fen feeds FEN fields 0..5 to placement, side, castling, en passant, half-move clock, full-move number, in that order."""
     ix = ctx.ix
@@ -197,6 +202,30 @@ def rule_fields(ctx):
     build = [bi for bi, t in b.calls() if callee_is(t, BB + "build")]
     ok = len(hist) == 1 and len(build) == 1 and all(b.dominates(x, hist[0]) for x, _n in order) and b.dominates(hist[0], build[0])
     ctx.check(ok, "fields:history-then-build", "history() runs after all six field parsers and before build()", b.where(0), bad_what="from_fen does not run history() after the parsers and before build()")
+    # nothing else gets its hands on the builder between BoardBuilder::new() and build(): a step that revisits a field after
+    # its parser (drops an en-passant file "nobody can use", clamps a clock) makes the loaded position differ from the FEN
+    allowed = {SER + w[0] for w in want} | {SER + "history", BB + "build", BB + "new", BB + "default", BB + "construct_empty_board", "board::Board::builder"}
+    others = []
+    for bi, t in b.calls():
+        takes = False
+        for a in t.get("args", []):
+            q = op_place(a)
+            if q is not None and "boardbuilder::BoardBuilder" in b.locals[q["l"]]["ty"]:
+                takes = True
+        c = strip_generics(t.get("callee") or "")
+        if (takes or "boardbuilder::BoardBuilder" in t["dest"].get("ty", "")) and c not in allowed and not c.startswith("std::") and not c.startswith("core::"):
+            others.append((C.short(c), t.get("line")))
+    ctx.check(not others, "fields:only-the-parsers-touch-the-builder", "in from_fen the builder goes through the six field parsers, history() and build(), and nothing else", b.where(0),
+              bad_what="from_fen also passes the builder to %s: a field is revisited after its parser stored what the FEN says" % others[:4])
+    # ... and the board that build() returns is the board from_fen returns: nothing is patched up afterwards
+    r = mir.strip_copies(sym.local(0))
+    direct = r[0] == "call" and r[1] == BB + "build"
+    later = [(fields_of(s["lhs"]), s.get("line")) for bi, i, s in b.stmts() if build and s["lhs"]["p"] and (bi in b.reachable_from(build[0]))
+             and "board::Board" in b.locals[s["lhs"]["l"]]["ty"]]
+    later_calls = [(C.short(strip_generics(t.get("callee") or "")), t.get("line")) for bi, t in b.calls() if build and bi in b.reachable_from(build[0]) and not blk_is_drop(t)]
+    ctx.check(direct and not later and not later_calls, "fields:returns-what-build-built", "from_fen returns the value of build() unchanged", b.where(build[0] if build else 0),
+              bad_what="from_fen changes the board after build() (%s): the loaded position is not the one the builder described, and history's synthetic record no longer matches it"
+              % ((later + later_calls)[:4] or expr_str(r)[:80]))
     # each parser's result is threaded into the next (builder = f(builder, ..))
     # the small parsers: clock / counter setters receive the parsed number
     for fn, setter in (("halfmove_clock", "halfmove_clock"), ("fullmove_counter", "fullmove_counter")):
@@ -490,6 +519,11 @@ def rule_placement_walk(ctx):
 
 RULES = [("placement-walk", rule_placement_walk), ("setters", rule_setters), ("letters", rule_letters), ("bijection", rule_bijection), ("fields", rule_fields), ("castle-letters", rule_castle_letters), ("side-ep", rule_side_and_ep),
          ("history", rule_history), ("build", rule_build)]
+# "and from then on behaves (legal moves, keys, bookkeeping) identically to the same position reached by play": the loaded
+# board differs from a played one only in its synthetic first history record, so what make / unmake and the search read from
+# the top record must be what the rules say for any record (C03 clock, en-passant and accessor clauses; C02 en-passant restore)
+RULES += engine.premise_rules("c03", ["clock", "ep", "accessors"])
+RULES += engine.premise_rules("c02", ["ep-restore"])
 
 
 def run(tier):
